@@ -34,9 +34,9 @@ fcppt::intrusive::list<Type> &fcppt::intrusive::list<Type>::operator=(list &&_ot
 
   if (_other.empty())
   {
-    this->head_.next_ = &this->head_;
-
-    this->head_.prev_ = &this->head_;
+    // Leave the ring of the current members, as the other branch does:
+    // just resetting the head would keep them linked to it.
+    this->head_.unlink();
   }
   else
   {
